@@ -3,6 +3,6 @@ CONSTANTS
   Polls <- R3
   Pubs <- U2
   Fix = TRUE
-  FixHB = TRUE
-INVARIANTS StaysOnline NoDeadLetter Conservation InOrder NothingLost
+  FixHB = FALSE
+INVARIANTS StaysOnline NothingLost
 CHECK_DEADLOCK FALSE
